@@ -386,6 +386,97 @@ def _mul_operands(f, og, o):
 
 
 def check_payments(fx, rep):
+    """the two balance credits as extracted expressions, evaluated on a value grid (robust to
+    helper extraction and algebraic rewrites; private helpers are followed by symx)"""
+    import itertools
+    import c23
+    from symx import Symx, Budget, render, lit_truth
+    PEX = 'revm::handler::mainnet::post_execution::'
+    grid = list(itertools.product((0, 1, 7, 10 ** 9), (0, 3, 10 ** 9 + 5), (0, 21000, 79000), (0, 1, 4800), (0, 5, 10 ** 18)))
+
+    def credits(name):
+        f = fx.fns.get(PEX + name)
+        if f is None:
+            rep.undecided('R6-payments', name, 'not found')
+            return None, []
+        rep.fn(f)
+        try:
+            rs = Symx(fx, max_paths=3000, snapshot_refs=True).run(f)
+        except Budget:
+            rep.undecided('R6-payments', name, 'path budget', f.where())
+            return f, []
+        out = []
+        for r in rs:
+            if r.ret[0] == 'agg' and r.ret[2] == 'Err':
+                continue
+            london = None
+            for (sv, lit, _f, _b) in r.lits:
+                if render(sv).startswith('enabled(SpecId::LONDON'):
+                    london = lit_truth(lit)
+            bal = [v for (root, path), v in r.stores.items() if path and path[-1] == '.balance']
+            out.append((london, bal))
+        return f, out
+
+    def value(v, price, basefee, spent, refunded, bal, remaining):
+        env = {'__sym__': lambda r_: bal if r_.endswith('.info.balance') else (basefee if r_.endswith('.block.basefee') else None),
+               '__calls__': {'effective_gas_price': lambda sv, e: price, 'remaining': lambda sv, e: remaining,
+                             'refunded': lambda sv, e: refunded, 'spent': lambda sv, e: spent}}
+        return c23.ev(v, env)
+
+    f, paths = credits('reimburse_caller')
+    if f is not None:
+        bad = None
+        if not paths or any(len(b) != 1 for _l, b in paths):
+            bad = 'the caller balance is not written exactly once'
+        else:
+            for price, basefee, spent, refunded, bal in grid:
+                remaining = 100000 - spent
+                for _l, b in paths:
+                    try:
+                        got = value(b[0], price, basefee, spent, refunded, bal, remaining)
+                    except c23.NoValue as e:
+                        bad = 'credit not evaluable (%s)' % e
+                        break
+                    want = bal + price * (remaining + refunded)
+                    if got != want:
+                        bad = 'with price %d, remaining %d, refunded %d and balance %d the caller ends with %d, expected %d' % (price, remaining, refunded, bal, got, want)
+                        break
+                if bad:
+                    break
+        if bad:
+            rep.violation('R6-payments', 'reimburse_caller', 'reimbursement is not effective_gas_price * (remaining + refunded): %s' % bad, f.where())
+        else:
+            rep.ok('R6-payments', 'reimburse_caller', 'effective_gas_price * (remaining + refunded) on %d grid points' % len(grid))
+    f, paths = credits('reward_beneficiary')
+    if f is not None:
+        bad = None
+        if {l for l, _b in paths} != {True, False} or any(len(b) != 1 for _l, b in paths):
+            bad = 'no London / pre-London pair of paths writing the beneficiary balance once'
+        else:
+            for price, basefee, spent, refunded, bal in grid:
+                if refunded > spent:
+                    continue
+                for london, b in paths:
+                    try:
+                        got = value(b[0], price, basefee, spent, refunded, bal, 100000 - spent)
+                    except c23.NoValue as e:
+                        bad = 'credit not evaluable (%s)' % e
+                        break
+                    per_gas = max(price - basefee, 0) if london else price
+                    want = bal + per_gas * (spent - refunded)
+                    if got != want:
+                        bad = '%s London with price %d, basefee %d, spent %d, refunded %d the beneficiary ends with %d, expected %d' % (
+                            'from' if london else 'before', price, basefee, spent, refunded, got, want)
+                        break
+                if bad:
+                    break
+        if bad:
+            rep.violation('R6-payments', 'reward_beneficiary', 'beneficiary reward formula differs: %s' % bad, f.where())
+        else:
+            rep.ok('R6-payments', 'reward_beneficiary', '(effective - basefee from LONDON, else effective) * (spent - refunded)')
+
+
+def check_payments_origins(fx, rep):
     PEX = 'revm::handler::mainnet::post_execution::'
     EGP = 'revm_primitives::env::Env::effective_gas_price'
     # reimbursement
